@@ -202,12 +202,18 @@ func offPath(t reflect.Type, path []string, before, after reflect.Value) bool {
 		if !ok {
 			return sameStrings(entriesS(before, nil), entriesS(after, nil))
 		}
-		ktext := dumpS(k)
+		// Go's == on keys; a NaN key names every NaN entry (none is ever found again)
+		same := func(a reflect.Value) bool {
+			if a.Kind() == reflect.Float32 || a.Kind() == reflect.Float64 {
+				return a.Float() == k.Float() || (a.Float() != a.Float() && k.Float() != k.Float())
+			}
+			return a.Interface() == k.Interface()
+		}
 		other := func(x reflect.Value) bool {
 			if ptrKey {
-				return x.IsNil() || dumpS(x.Elem()) != ktext
+				return x.IsNil() || !same(x.Elem())
 			}
-			return !(x.Interface() == k.Interface())
+			return !same(x)
 		}
 		if !sameStrings(entriesS(before, other), entriesS(after, other)) {
 			return false
